@@ -152,6 +152,9 @@ structure Heap where
   `DefaultConfig.errors_map`, by exception class name, attribute by attribute (`_status_code`,
   `_status_line`, `body`, `_headers`, `_cookies`, `exception`, `traceback`) -/
   errs : String → Attr → Option SVal
+  /-- the lazily filled module-level cache `error_render._html_lns` (the template lines) has been
+  filled; shared by every application and thread -/
+  tmplLoaded : Bool
 
 /-- process start: nothing constructed -/
 def Heap.empty : Heap where
@@ -165,6 +168,7 @@ def Heap.empty : Heap where
   regs := fun _ _ _ => none
   cell := fun _ => none
   errs := fun _ _ => none
+  tmplLoaded := false
 
 /-- the attributes of a shared error object, from its row of the generated table -/
 def errAttr (row : String × Int × String × String × List (String × String) × Bool) (k : Attr) : Option SVal :=
@@ -206,6 +210,7 @@ inductive Upd
   | ncopies (t : ThreadId) (a : AppId)
   | reg (t : ThreadId) (a : AppId) (r : Reg) (v : Val)
   | err (e : String) (k : Attr) (v : SVal)
+  | tmpl
 
 def Upd.apply (h : Heap) : Upd → Heap
   | .tls i t k v => { h with tls := upd3 h.tls i t k v }
@@ -218,6 +223,7 @@ def Upd.apply (h : Heap) : Upd → Heap
   | .ncopies t a => { h with ncopies := upd2 h.ncopies t a (h.ncopies t a + 1) }
   | .reg t a r v => { h with regs := upd3 h.regs t a r (some v) }
   | .err e k v => { h with errs := upd2 h.errs e k (some v) }
+  | .tmpl => { h with tmplLoaded := true }
 
 def applyAll (h : Heap) (us : List Upd) : Heap := us.foldl Upd.apply h
 
@@ -311,6 +317,9 @@ inductive Access
   /-- write an attribute of a shared `HTTPError` object.  No code path of the tree as it is does
   this; the step exists so that the theorems can name what they exclude (`Access.sharedOk`) -/
   | errSet (e : String) (k : Attr) (v : SVal)
+  /-- `if not _html_lns: _html_lns[:] = [...]` then read the lines (error_render.render): the cache is
+  filled by whoever comes first; what is read is the template of the tree (generated digest) either way -/
+  | tmplLoad
   deriving DecidableEq, Repr
 
 def resOf : Val → Res
@@ -420,6 +429,7 @@ def plan (v : Variant) (t : ThreadId) (a : AppId) (h : Heap) : Access → List U
     | some (.items d) => ([], .items d)
     | none => ([], .err .attributeError)
   | .errSet e k x => ([.err e k x], .val .none)
+  | .tmplLoad => ([.tmpl], .val (.str Gen.tsTemplateDigest))
 
 /-- one atomic step of thread `t` in a handler / the serving code of application `a` -/
 def exec (v : Variant) (t : ThreadId) (a : AppId) (acc : Access) (h : Heap) : Heap × Res :=
